@@ -286,7 +286,19 @@ func (c *Ctx) invariant(t types.Type, v *Term, depth int) *Term {
 		return c.And(c.Eq(c.App("m_IsLeft__Bool", c.Bool, v), c.Not(c.App("m_IsRight__Bool", c.Bool, v))), c.Not(c.Eq(v, c.NilIface())))
 	}
 	switch u := t.Underlying().(type) {
-	case *types.Pointer, *types.Map, *types.Chan:
+	case *types.Map:
+		ms := c.MapValSort(u)
+		h0 := c.Const("H0_"+sanitize(ms.Name), c.ArraySort(c.Int, ms))
+		rec := c.Select(h0, v)
+		k := c.BoundVar("k", ms.Fields[0].Sort.Idx)
+		// well-formed map record: size is non-negative and zero exactly for the empty key set
+		wf := c.And(c.Cmp("<=", c.IntLit(0), c.Sel(rec, 2)),
+			c.Implies(c.Eq(c.Sel(rec, 2), c.IntLit(0)), c.Forall([]*Term{k}, c.Not(c.Select(c.Sel(rec, 0), k)))))
+		if c.inputMode {
+			return c.And(c.Cmp("<=", c.IntLit(0), v), c.Cmp("<", v, c.AllocFrontier()), wf)
+		}
+		return c.Cmp("<=", c.IntLit(0), v)
+	case *types.Pointer, *types.Chan:
 		if c.inputMode {
 			return c.And(c.Cmp("<=", c.IntLit(0), v), c.Cmp("<", v, c.AllocFrontier()))
 		}
